@@ -51,6 +51,8 @@ def run_fault(case, chooser):
         spy.only_instance = 0
         spy.count = 0
         spy.calls = []
+        spy.fail_exc = {"OSError": OSError, "TimeoutError": TimeoutError, "ValueError": ValueError,
+                        "KeyError": KeyError, "RuntimeError": RuntimeError}[case.get("exc", "OSError")]
         if case["mode"] == "single":
             spy.fail_at = case["k"]
         elif case["mode"] == "repeat":
@@ -176,7 +178,7 @@ def _work(item):
             part.sample({"case": {k: v for k, v in case.items() if k != "solo"}, "choices": ch.choices}, limit=2)
             for p in res["problems"]:
                 sig = {"kind": p["kind"], "verb": p.get("script_verb"), "failed_op": p.get("failed_op"),
-                       "mode": p.get("mode")}
+                       "mode": p.get("mode"), "exc": case.get("exc", "OSError")}
                 part.violation(sig, {"problem": p, "case": {k: v for k, v in case.items() if k != "solo"}},
                                replay={"case": case, "choices": ch.choices, "kinds": sorted(kinds or [])})
     except ReplayDivergence as exc:
@@ -203,6 +205,13 @@ def build_items(tier):
                     case = {"script": script, "backend": backend, "mode": "single", "k": k, "second": second,
                             "solo": solos[backend]}
                     items.append((case, bound, kinds))
+                # a backend may fail with any kind of exception (time-outs, value errors, ...)
+                for exc in ("TimeoutError", "ValueError", "KeyError", "RuntimeError"):
+                    if tier == "quick" and backend != "memory":
+                        continue
+                    case = {"script": script, "backend": backend, "mode": "single", "k": k, "second": False,
+                            "exc": exc}
+                    items.append((case, 0, kinds))
                 # repeated fault: first occurrence of each op kind
                 if names[k - 1] not in names[:k - 1]:
                     case = {"script": script, "backend": backend, "mode": "repeat", "k": k, "op": names[k - 1],
@@ -225,6 +234,7 @@ def run(tier, seed, t0):
     bounds = {"scripts": len(SCRIPTS), "backends": ["memory", "pathio"] + ([] if tier == "quick" else ["async"]),
               "fault_positions": "every backend call k=1..K of the fault-free run of each script",
               "fault_modes": ["single (k-th call)", "repeated (every call of that operation kind from k on)"],
+              "exception_kinds": ["OSError", "TimeoutError", "ValueError", "KeyError", "RuntimeError"],
               "deviation_bound": 0 if tier == "quick" else 1, "second_session": True, "cases": len(items)}
     return report.finish(
         PID, tier, seed, "fault_enumeration", part, t0,
